@@ -42,6 +42,11 @@ C13-r3-3).  Fourth round: the long range -- |t| in [6,11.5], pairs 7.5..10.5
 apart, circumradii 7..11.5 / interior angles down to 1e-5, alone or mixed with
 ordinary values in one composite (wl_long_range, wl_polygon_extreme; C13-r4-3);
 the postconditions judge circumradii up to 12 and far points down to 1 - r = 1e-13.
+Sixth round: the near-Euclidean end -- interior angles within 3e-13..1e-4 of
+(n-2)pi/n, radius= 1e-7..1e-2, judged relative to the size of the polygon
+against the extended-precision reference ref/polygon_ld.py, and the formulas as
+mutual inverses there (wl_near_euclidean; C13-r6-3); the regular_polygon and
+formula postconditions judge that end relatively (allowance 1e-12/deficit).
 """
 import math
 import traceback
@@ -51,6 +56,7 @@ from ..run import Workload
 from .. import attach
 from ..ref import hyp as rh
 from ..ref import hyp2 as r2
+from ..ref import polygon_ld as pl
 
 ID = "C13"
 RULE = ("cases = (dimension 2..5, composite shape in {(), (k,), (a,b), (a,1,c)}, "
@@ -66,7 +72,10 @@ RULE = ("cases = (dimension 2..5, composite shape in {(), (k,), (a,b), (a,1,c)},
         "[6,9], [9,11.5] or mixed with [0.1,3] per unit from basepoints of Klein "
         "radius <= 0.5 or the origin; pairs with d in [7.5,10.5]; polygons n in "
         "{3..8,10,12,16,24,37,60} of circumradius [7,11.5] by radius or by the tiny "
-        "angle, scalar or next to ordinary parameters in one array)); non-trivial = the point is not the origin / t != 0 / the "
+        "angle, scalar or next to ordinary parameters in one array), near-Euclidean "
+        "polygons (same n; angle = (n-2)pi/n - delta, delta log-uniform in "
+        "[3e-13 (n-2)pi/n, 1e-4], or radius log-uniform in [1e-7,1e-2]; relative "
+        "tolerance 1e-9 + 1e-12/R + 1e-12/delta)); non-trivial = the point is not the origin / t != 0 / the "
         "triangle is non-degenerate (sin A >= 1e-3, sides >= 0.05); distinct = "
         "distinct (check, dimension, shape kind, class, option) signatures.  "
         "Residuals: hyperbolic distance between obtained and expected point, "
@@ -90,6 +99,10 @@ ASSUMPTIONS = [
     "defined to ~eps/(1-r)); the direction towards a point at distance d < 1e-6 "
     "is judged only where eps/((1-r) d) <= 1e-5, down to d = 1e-9",
     "n-sweep: n <= 3000 (the library's construction is quadratic in n)",
+    "near the Euclidean limit the circumradius is a function of the deficit "
+    "delta = (n-2)pi/n - a, known in float64 to relative eps/delta: angles with "
+    "delta < 1e-13 (n-2)pi/n are not judged, the round trip radius(angle(r)) only "
+    "where delta sin(pi/n) >= 3e-12; distances carry an absolute allowance 1e-12",
 ]
 ANCHORS = [("geometry_tools/hyperbolic.py", q) for q in (
     "Point.origin_to", "Point.unit_tangent_towards", "Point.get_origin",
@@ -127,6 +140,18 @@ ISO_TOL = 1e-9
 # power (a point that stops 0.75 short is seen) up to total distance ~12 from
 # the origin, and beyond 1e-13 nothing is judged.
 R_MAX = 12.0             # largest polygon circumradius judged (was 7)
+# near-Euclidean end (sixth seeding round, C13-r6-3): circumradii <= R_SMALL are
+# judged *relatively*.  Allowances: distances carry an absolute error of ~eps
+# (the library's tanh as (e^{2r} - 1)/(e^{2r} + 1): pinned tree 3e-17 absolute),
+# and the radius of an n-gon requested by its angle a is determined by the
+# deficit delta = (n-2)pi/n - a ~ R^2 sin(2 pi/n)/2 only to relative ~eps/delta
+# (pinned tree <= 1.4 eps/delta): tolerance 1e-9 + 1e-12/R (+ 1e-12/delta).
+R_SMALL = 0.1
+DEFICIT_MIN = 1e-13      # smallest delta / ((n-2)pi/n) judged (eps/delta ~ 1e-3)
+
+
+def small_tol(R):
+    return 1e-9 + 1e-12 / np.maximum(np.asarray(R, dtype=float), 1e-300)
 OMR_MIN = 1e-13          # point_along postcondition: smallest 1 - r of the far point
 
 
@@ -219,6 +244,34 @@ def judge_isometry(mon, Mf, tol, ok, key, what, case_of):
 
 # ---------------------------------------------------------------------------
 # reference checks shared by the postcondition and the workload level
+
+def small_polygon_report(V, n, R, tolR):
+    """V: (m, n, d+1) vertex data of small polygons, R: (m,) expected radius,
+    tolR: (m,) relative tolerance of the radius.  Everything relative to the
+    size of the polygon: name -> (err (m,), tol (m,))."""
+    vk = klein_of(V)
+    sg = math.sin(math.pi / n)
+    base = small_tol(R)
+    side = pl.side(n, R)
+    with np.errstate(all="ignore"):
+        d0 = r2.dist_klein_ref(vk, np.zeros_like(vk))
+        ds = r2.dist_klein_ref(vk, np.roll(vk, -1, axis=-2))
+        out = {
+            "radius-relative": (np.max(np.abs(d0 / R[:, None] - 1.0), axis=-1), tolR),
+            "sides-relative": (np.max(np.abs(ds / side[:, None] - 1.0), axis=-1), 2 * tolR + base / sg),
+            "equidistant-relative": (np.ptp(d0, axis=-1) / R, 2 * base),
+            "equal-sides-relative": (np.ptp(ds, axis=-1) / side, 2 * base / sg),
+        }
+    return out
+
+
+SMALL_WHAT = {
+    "radius-relative": "vertices are not at the expected distance from the origin (relative to it)",
+    "sides-relative": "sides do not have the length of the regular n-gon of this circumradius "
+                      "(relative to it)",
+    "equidistant-relative": "vertices are not at equal distance from the origin (relative to the radius)",
+    "equal-sides-relative": "sides are not of equal length (relative to the side)"}
+
 
 def polygon_report(V, n, R, a):
     """V: (m, n, d+1) vertex data, R, a: (m,) expected radius and interior
@@ -711,11 +764,30 @@ def setup(run):
             ok &= R <= R_MAX
             slack = 1.0 / np.where(ok, 1.0 - frac, 1.0)
             how = "angle"
-        if (~ok).any():
+        Vf = flat(V, 2)
+        # small polygons (tiny radius= / angle within delta of the Euclidean
+        # value): judged relative to their size
+        with np.errstate(all="ignore"):
+            if radius is not None:
+                sm = np.isfinite(pf) & (pf >= 1e-8) & (pf <= R_SMALL)
+                Rs = pf
+                tolR = small_tol(np.where(sm, pf, 1.0))
+            else:
+                dl = pl.deficit(n, pf)
+                sm = np.isfinite(pf) & (pf > 0) & (dl >= DEFICIT_MIN * r2.max_angle(n))
+                Rs = pl.radius(n, np.where(sm, pf, r2.max_angle(n) / 2))
+                sm &= (Rs <= R_SMALL) & (Rs > 0)
+                tolR = small_tol(np.where(sm, Rs, 1.0)) + 1e-12 / np.where(sm, dl, 1.0)
+        if sm.any():
+            srep = small_polygon_report(Vf, n, np.where(sm, Rs, 1.0), tolR)
+            for name, (err, tol) in srep.items():
+                judge_rows(m_rp, err, tol, sm, "regular_polygon/%s/by-%s" % (name, how), SMALL_WHAT[name],
+                           lambda w: {"n": n, "dimension": dim, how: pf[w], "expected_radius": Rs[w],
+                                      "vertices_klein": klein_of(Vf[w]), "ambient": amb()})
+        if (~ok & ~sm).any():
             m_rp.skip("parameter outside the admissible range (with margin)")
         if not ok.any():
             return
-        Vf = flat(V, 2)
         rep = polygon_report(Vf, n, np.where(ok, R, 1.0), np.where(ok, a, 1.0))
         what = {"radius": "vertices are not at the expected distance from the origin",
                 "sides": "sides do not have the length of the regular n-gon of this circumradius",
@@ -756,7 +828,24 @@ def setup(run):
         # lower end: 1e-3 of the admissible range as before, or any smaller
         # angle whose circumradius is <= 14 (nearly ideal polygons)
         ok &= (frac >= 1e-3) | (ref <= 14.0)
-        if (~ok).any():
+        # the whole admissible range, relatively, against the extended-precision
+        # reference: up to deficit delta >= 1e-13 (n-2)pi/n at the Euclidean end
+        # (C13-r6-3: radii below 1e-4 snapped to 0)
+        with np.errstate(all="ignore"):
+            dl = pl.deficit(n, a)
+            okr = np.isfinite(a) & (n >= 3) & (a > 0) & (dl >= DEFICIT_MIN * (n - 2) * math.pi / np.maximum(n, 1))
+            refl = pl.radius(np.where(okr, n, 3), np.where(okr, a, 0.5))
+            okr &= (refl > 0) & (refl <= 14.0)
+        if okr.any():
+            with np.errstate(all="ignore"):
+                errr = np.abs(res / np.where(okr, refl, 1.0) - 1.0)
+            judge_rows(m_pf, errr, 1e-9 + 1e-12 / np.where(okr, dl, 1.0), okr,
+                       "polygon-formulas/regular_polygon_radius/relative",
+                       "regular_polygon_radius(n, a) differs from cosh R = cot(pi/n) cot(a/2) "
+                       "(relative to R; allowance 1e-12/deficit)",
+                       lambda w: {"n": n[w], "angle": a[w], "deficit": dl[w], "returned": res[w],
+                                  "reference": refl[w], "ambient": amb()})
+        if (~ok & ~okr).any():
             m_pf.skip("regular_polygon_radius: angle outside the admissible range (with margin)")
         if not ok.any():
             return
@@ -773,9 +862,21 @@ def setup(run):
         if st is None:
             return m_pf.skip("polygon_interior_angle: non-numeric / non-broadcastable arguments")
         n, R, res = st
+        # against the extended-precision reference, at the accuracy the mutual
+        # inverse needs near the Euclidean end: the deficit (n-2)pi/n - a ~ R^2
+        # is all that distinguishes small radii (pinned tree: 2.4 eps/sin(pi/n))
+        okd = np.isfinite(R) & (n >= 3) & (R >= 1e-8) & (R <= 20)
+        if okd.any():
+            refl = pl.angle(np.where(okd, n, 3), np.where(okd, R, 1.0))
+            judge_rows(m_pf, np.abs(res - refl), 1e-12 / np.sin(math.pi / np.where(okd, n, 3)), okd,
+                       "polygon-formulas/polygon_interior_angle/deficit",
+                       "polygon_interior_angle(n, R) differs from tan(a/2) = cot(pi/n)/cosh R by more "
+                       "than 1e-12/sin(pi/n)",
+                       lambda w: {"n": n[w], "radius": R[w], "returned": res[w], "reference": refl[w],
+                                  "ambient": amb()})
         ok = np.isfinite(R) & (n >= 3) & (R >= 1e-6) & (R <= 20)
-        if (~ok).any():
-            m_pf.skip("polygon_interior_angle: radius outside [1e-6, 20]")
+        if (~ok & ~okd).any():
+            m_pf.skip("polygon_interior_angle: radius outside [1e-8, 20]")
         if not ok.any():
             return
         ref = r2.polygon_angle_ref(np.where(ok, n, 3), np.where(ok, R, 1.0))
@@ -1403,6 +1504,117 @@ def wl_polygon_extreme(run, rng, idx):
     run.note_class("polygon-extreme", n, by, dim, ecls)
 
 
+# ---------------------------------------------------------------------------
+# the near-Euclidean end of the admissible range (sixth seeding round, C13-r6-3)
+
+NEAR_EUCLID = ("tiny-radius", "near-euclidean-angle", "tiny-radius-array", "near-euclidean-angle-array")
+
+
+def wl_near_euclidean(run, rng, idx):
+    """'all admissible angles in (0, (n-2)pi/n)': the upper end.  Interior angles
+    a = (n-2)pi/n - delta with delta log-uniform in [3e-13 (n-2)pi/n, 1e-4]
+    (circumradius ~ sqrt(2 delta / sin(2pi/n)): 1e-2 down to ~1e-6), and explicit
+    radius= requests log-uniform in [1e-7, 1e-2]; scalar, or in one array next to
+    an ordinary parameter.  Everything is judged relative to the size of the
+    polygon (small_polygon_report): radius against the extended-precision
+    reference for the float64 datum a (tolerance 1e-9 + 1e-12/R + 1e-12/delta --
+    the radius is legitimately uncertain by eps/delta), sides, equal radii, equal
+    sides; n distinct vertices (closest pair >= half the reference side: holds
+    whatever the allowance, the radius is never uncertain by more than 0.5%);
+    interior angle with the absolute tolerance and *no* slack (it does not depend
+    on the radius to first order).  Then the two formulas as mutual inverses:
+      radius(angle(r)) / r - 1 <= 1e-9 + 1e-12/(delta sin(pi/n)), r drawn where
+      this allowance is <= 1/3;  |angle(radius(a)) - a| <= 1e-12/sin(pi/n).
+    C13-r6-3 (np.isclose(term, 0) with its absolute 1e-8 in
+    regular_polygon_radius): radius 0 for every delta below ~1e-8, n copies of
+    the origin.  Same family: any absolute threshold / clamp / early return near
+    the Euclidean limit, on either formula or on the radius= path."""
+    from geometry_tools.hyperbolic import Polygon
+    from geometry_tools import hyperbolic as H
+    mon = run.monitor("polygon")
+    ecls = NEAR_EUCLID[idx % 4]
+    n = (3, 4, 5, 6, 7, 8, 10, 12, 16, 24, 37, 60)[(idx // 4) % 12]
+    dim = 2 if (idx // 3) % 2 == 0 else 2 + (idx // 6) % 4
+    amax = r2.max_angle(n)
+    sg = math.sin(math.pi / n)
+    array = ecls.endswith("-array")
+    shape = (int(rng.integers(2, 5)),) if array else ()
+    by = "radius" if ecls.startswith("tiny-radius") else "angle"
+    if by == "radius":
+        par = np.exp(rng.uniform(np.log(1e-7), np.log(1e-2), size=shape))
+        if array:
+            par[-1] = rng.uniform(0.3, 3.0)            # an ordinary polygon in the same call
+        R = par
+        a = pl.angle(n, par)
+        tolR = small_tol(R)
+    else:
+        delta = np.exp(rng.uniform(np.log(3e-13 * amax), np.log(1e-4), size=shape))
+        par = amax - delta
+        if array:
+            par[-1] = rng.uniform(0.2, 0.8) * amax
+        R = pl.radius(n, par)                         # of the float64 datum
+        a = par
+        tolR = small_tol(R) + 1e-12 / pl.deficit(n, par)
+    case = {"n": n, "by": by, "dimension": dim, "shape": list(shape), "parameter": par,
+            "class": ecls, "expected_radius": R, "deficit": pl.deficit(n, a)}
+    run.current_case = case
+    kw = {by: (float(par) if idx % 2 else np.array(par)) if not shape else np.array(par)}
+    if dim != 2 or idx % 2:
+        kw["dimension"] = dim
+    poly = call_regular_polygon(Polygon, n, kw, idx)
+    vk = np.asarray(poly.get_vertices().coords("klein"), dtype=float)
+    if not mon.require(vk.shape == tuple(shape) + (n, dim), "polygon/vertices-shape",
+                       "get_vertices().coords('klein') has shape %r, expected %r"
+                       % (vk.shape, tuple(shape) + (n, dim)), case):
+        return
+    V = flat(rh.klein_to_proj(vk), 2)
+    Rf = np.reshape(R, -1).astype(float)
+    af = np.reshape(a, -1).astype(float)
+    tf = np.reshape(tolR, -1).astype(float)
+    small = Rf <= R_SMALL
+    witness = lambda w: dict(case, row=w, vertices_klein=klein_of(V[w]))
+    for name, (err, tol) in small_polygon_report(V, n, Rf, tf).items():
+        judge_rows(mon, err, tol, small, "polygon/%s/by-%s/%s" % (name, by, ecls), SMALL_WHAT[name], witness)
+    rep = polygon_report(V, n, Rf, af)
+    judge_rows(mon, rep["angle"][0], rep["angle"][1], small, "polygon/angle/by-%s/%s" % (by, ecls),
+               "interior angle differs", witness)
+    if "planar" in rep:
+        judge_rows(mon, rep["planar"][0], rep["planar"][1], small, "polygon/planar/by-%s/%s" % (by, ecls),
+                   "vertices do not span a 2-plane", witness)
+    side = pl.side(n, Rf)
+    gap = np.array([min_pair_distance(klein_of(V[w]))[0] for w in range(V.shape[0])])
+    judge_rows(mon, np.maximum(1.0 - gap / side, 0.0), np.full(Rf.shape, 0.5), small,
+               "polygon/distinct-vertices/" + ecls,
+               "two vertices of the n-gon are closer to each other than half its side "
+               "(vertices repeated / collapsed)",
+               lambda w: dict(witness(w), closest_distance=gap[w], side=side[w]))
+    # the formulas as mutual inverses, where float64 determines the answer
+    m = max(len(Rf), 3)
+    rlo = math.sqrt(2 * 3e-12 / (math.sin(2 * math.pi / n) * sg))
+    r = np.exp(rng.uniform(np.log(rlo), np.log(1e-2), size=m))
+    case2 = {"n": n, "radius": r, "class": ecls}
+    run.current_case = case2
+    A = np.asarray(H.polygon_interior_angle(n, r.copy() if idx % 2 else float(r[0])), dtype=float)
+    r_in = r if idx % 2 else r[:1]
+    rb = np.asarray(H.regular_polygon_radius(n, A), dtype=float).reshape(-1)
+    dl = pl.angle_deficit(n, r_in)
+    judge_rows(mon, np.abs(rb / r_in - 1.0), 1e-9 + 1e-12 / (dl * sg), None,
+               "polygon/inverse/radius(angle(r))/near-euclidean",
+               "regular_polygon_radius(n, polygon_interior_angle(n, r)) / r != 1",
+               lambda w: dict(case2, row=w, r=r_in[w], back=rb[w], deficit=dl[w]))
+    dl2 = np.exp(rng.uniform(np.log(3e-12 / sg), np.log(1e-4), size=m))
+    a2 = amax - dl2
+    case3 = {"n": n, "angle": a2, "class": ecls}
+    run.current_case = case3
+    Rr = np.asarray(H.regular_polygon_radius(n, a2.copy()), dtype=float)
+    ab = np.asarray(H.polygon_interior_angle(n, Rr), dtype=float)
+    judge_rows(mon, np.abs(ab - a2), 1e-12 / sg, None, "polygon/inverse/angle(radius(a))/near-euclidean",
+               "polygon_interior_angle(n, regular_polygon_radius(n, a)) != a (to 1e-12/sin(pi/n), "
+               "deficits >= 3e-12/sin(pi/n))",
+               lambda w: dict(case3, row=w, a=a2[w], back=ab[w], deficit=pl.deficit(n, a2)[w]))
+    run.note_class("near-euclidean", n, by, dim, ecls)
+
+
 T_CLASSES = ("zero", "tiny", "moderate", "large")
 
 
@@ -1891,5 +2103,6 @@ WORKLOADS = [
     Workload("polygon-sweep", wl_polygon_sweep, quick=100, thorough=348),
     Workload("long-range", wl_long_range, quick=96, thorough=11520),
     Workload("polygon-extreme", wl_polygon_extreme, quick=96, thorough=5760),
+    Workload("near-euclidean", wl_near_euclidean, quick=96, thorough=5760),
     Workload("formulas", wl_formulas, quick=66, thorough=4752),
 ]
